@@ -8,17 +8,12 @@ CONSTANTS Seed = %d
  Count = %d
 CHECK_DEADLOCK FALSE
 """
-INVALID = [
-    {"id": -1, "kind": "invalid", "what": "unknown-transport-type"},
-    {"id": -2, "kind": "invalid", "what": "bad-netconf-version"},
-    {"id": -3, "kind": "invalid", "what": "missing-known-hosts-file"},
-]
-
 
 def run(ctx):
     thorough = ctx.tier == "thorough"
     ctx.rule = ("scenario = option list of 1-8 user options (35 option functions x 2 value variants, duplicates allowed) preceded by 0-3 options of a platform definition's options block; each applied through "
-                "4 constructors; non-trivial = lists of at least two options; distinct by scenario x constructor")
+                "4 constructors; every fifth list also with one invalid option inserted at a pseudo-random position (unknown transport type, invalid NETCONF version, missing known-hosts file, network driver without privilege levels), "
+                "which the constructor must reject as Options!Invalid says; non-trivial = lists of at least two options; distinct by scenario x constructor")
     ctx.assumptions += ["file-path options point at existing files; numeric platform options are given values of the documented YAML type; boolean platform options are presence flags",
                         "the NETCONF constructor's own prompt pattern override is by design and not compared"]
     if ctx.replay:
@@ -33,22 +28,22 @@ def run(ctx):
     if "order law violated" in r["stdout"] or r["violated"]:
         ctx.violation("C19:model:order-law", "Options.tla: Fold is not order-independent for options on distinct settings:\n" + r["stdout"][-1200:], {"kind": "model"})
     scns = r["scn"]
-    if len(scns) != count:
-        raise ToolError("Options.tla produced %d of %d" % (len(scns), count))
+    if len(scns) != count + (count + 4) // 5:
+        raise ToolError("Options.tla produced %d of %d" % (len(scns), count + (count + 4) // 5))
     res = ctx.run_harness("c19", scns, timeout=3000)
     if len(res) != len(scns) * 4:
         raise ToolError("c19 answered %d of %d; stderr:\n%s" % (len(res), len(scns) * 4, ctx.last_stderr[-3000:]))
-    byid = {s["id"]: s for s in scns}
+    byid = {(s["id"], s.get("kind", "")): s for s in scns}
     for rr in res:
         ctx.count()
         if rr.get("nontrivial"):
             ctx.nontriv("%s/%s" % (rr["id"], rr["variant"]))
         if not rr["ok"]:
-            rp = dict(byid[rr["id"]])
+            rp = dict(byid[(rr["id"], "invalid" if ":invalid-" in rr["sig"] or rr.get("extra") == "invalid" else "")])
             rp["ctor"] = rr["variant"]
             ctx.violation(rr["sig"], rr["detail"], rp)
     ctx.traces_validated = len(res)
-    s0 = dict(scns[7])
+    s0 = dict([x for x in scns if x.get("kind") != "invalid"][7])
     s0["expect"] = {k: v for k, v in s0["expect"].items() if v}
     s0.pop("expectUserOnly", None)
     ctx.sample({"scenario": s0})
